@@ -1003,3 +1003,74 @@ def calls_in(t):
         return x
     map_terms(t, f)
     return names
+
+
+class Inliner:
+    """replaces calls of helper functions - functions of the analysed headers that the classifier does not know - by their
+    bodies with the parameters mapped, so that the caller is decided with the helper in place"""
+
+    def __init__(self, tu, f, v, is_helper):
+        self.tu, self.f, self.v, self.pred = tu, f, v, is_helper
+        self.used = set()
+        self.used_names = set()
+
+    def _is_helper(self, g):
+        return g['id'] != self.f['id'] and bool(self.pred(g))
+
+    def lookup(self, name, nargs, member):
+        tu = self.tu
+        for nm, q, node in self.v.callees:
+            if nm == name:
+                g = tu.callee_fn(node)
+                if g is not None and len(g['params']) == nargs and self._is_helper(g):
+                    return g
+        cands = []
+        for g in tu.functions.values():
+            if not g['dep'] or len(g['params']) != nargs or bool(g.get('rec')) != member:
+                continue
+            if member and g.get('rec') != self.f.get('rec'):
+                continue
+            d = tu.node(g['id']) or {}
+            if (d.get('name') or g['q'].split('::')[-1]) == name and self._is_helper(g):
+                cands.append(g)
+        return cands[0] if len(cands) == 1 else None
+
+    def expr(self, t, depth=0):
+        if depth > 3:
+            return t
+
+        def f(x):
+            if x[0] == 'call' and isinstance(x[1], str):
+                g = self.lookup(x[1], len(x[2]), False)
+                if g is not None:
+                    hv = FnView(self.tu, g)
+                    body = bool_of_stmts(list(hv.body()))
+                    if body is not None and not unknowns(body):
+                        self.used.add(g['id'])
+                        self.used_names.add(x[1])
+                        self.v.callees.extend(hv.callees)
+                        return self.expr(subst_params(body, x[2]), depth + 1)
+            return x
+        return map_terms(t, f)
+
+    def stmts(self, stmts, depth=0):
+        out = []
+        for st in stmts:
+            if st[0] == 'expr' and st[1][0] == 'mcall' and st[1][2] == ('this',) and depth < 3:
+                g = self.lookup(st[1][1], len(st[1][3]), True)
+                if g is not None:
+                    hv = FnView(self.tu, g)
+                    hb = [x for x in hv.body() if not (x[0] == 'ret' and x[1] is None)]
+                    if hb and all(x[0] == 'expr' for x in hb) and not unknowns(hb):
+                        self.used.add(g['id'])
+                        self.used_names.add(st[1][1])
+                        self.v.callees.extend(hv.callees)
+                        out.extend(self.stmts([subst_params(x, st[1][3], this=('this',)) for x in hb], depth + 1))
+                        continue
+            if st[0] == 'if':
+                out.append(('if', self.expr(st[1]), tuple(self.stmts(list(st[2]), depth)), tuple(self.stmts(list(st[3]), depth))))
+            elif st[0] in ('ret', 'expr') and st[1] is not None:
+                out.append((st[0], self.expr(st[1])))
+            else:
+                out.append(st)
+        return out
